@@ -142,6 +142,17 @@ TABLE = {
              "parameter samples from their own range or table (table first, both documented shapes accepted).",
         note="'empty entry' read as None / {} / absent; tables disjoint from ranges so the source of a sample is unambiguous",
         ref="DESIGN.md §4 C15"),
+    "C20": dict(
+        technique="runtime purity monitor: deep argument snapshots before/after, eager vs jit vs value_and_grad vs disable_jit, jax.checking_leaks()",
+        level="exploration",
+        text="For the five loss classes x {plain, +parameter batch, +observations, both} x {PINN, SPINN, HYPERPINN} and "
+             "every generator kind at {fresh, mid-epoch, epoch end}: deep snapshots (leaves and every dict reachable "
+             "through static fields, with ids) of all arguments are compared before/after eager and compiled calls; "
+             "results are compared across eager / jit / value_and_grad primal / op-by-op interpretation and across "
+             "repeated calls in three call orders, inside JAX's tracer-leak checker; two loaders of one configuration are "
+             "drawn under jit in one process.",
+        note="cross-mode comparison at rtol 1e-12, same-mode repetition bit-exact",
+        ref="DESIGN.md §4 C20"),
 }
 
 
